@@ -8,6 +8,7 @@ GlobalLagrangeGrid / GlobalBSplineGrid."""
 import random
 from fractions import Fraction as F
 from .. import sx
+from .. import gen
 from ..impl import run_impl
 from ..model import run_model
 
@@ -21,6 +22,7 @@ ASSUMPTIONS = [
     'present, modified basis, or GlobalHighOrderGrid which matches moments on the inner points); Simpson / Lagrange / B-spline '
     'with boundary=False and unmodified basis have zero-boundary-value semantics (set_grid strips the boundary weights)',
     'modified basis, one point, a = b (returns [0.0] in Python) is outside the model (None)',
+    gen.ASSUMPTION,
 ]
 
 INTERVALS = [(0.0, 1.0), (-1.0, 3.0), (2.0, 2.5), (0.0, 3.0), (-1.0, 2.0), (0.5, 2.0), (-3.0, 6.0), (1.0, 6.0)]
@@ -690,8 +692,16 @@ def corpus():
     return t, ce
 
 
+GEN_CHAIN = ['Base/PyNum.v', 'Gen/GridGen.v', 'Proofs/PyNumFacts.v', 'Proofs/GenGridEq.v']
+
+
 def run(chk):
+    # source-derived model: regenerate coq/Gen/GridGen.v from the working tree BEFORE the obligations, so that the
+    # C09_gen_* theorems are re-checked against GlobalTrapezoidalGrid.compute_weights as it is now
+    tinfo = gen.run_translator(chk, 'grid', 'GridGen.v')
     chk.coq_obligations()
+    gen_problem = gen.gen_diagnosis(chk, tinfo, GEN_CHAIN)
+    gen.report(chk, tinfo, gen_problem, 'C09_gen_*')
     rng = chk.rng
     t_fixed, c_fixed = corpus()
     tcases = t_fixed + [gen_trap_case(rng) for _ in range(chk.n(500, 20000))]
@@ -702,6 +712,9 @@ def run(chk):
     cimpl = run_impl(impl_cert, ccases, limit=120)
     check_cert(chk, ccases, cimpl, keys, samples)
     run_shrink_jobs(chk)
+    # a broken translation / equivalence is a broken proof obligation; reported without failing input only when the
+    # correspondence and the oracle above found no concrete input on which the implementation violates the property
+    gen.finish_gen(chk, tinfo, gen_problem)
     chk.record_cases(len(tcases) + len(ccases), keys,
                      'refinement-tree grids (3..60 points, dyadic midpoint and weighted-split trees, strongly graded styles, 8 '
                      'intervals [a,b], d 1..3); trapezoid: boundary/modified flags, exact comparison of compute_weights, set_grid, '
